@@ -402,6 +402,10 @@ def check(ctx):
         for w in writes:
             st = util.enclosing_stmt(w)
             val = st.value if isinstance(st, ast.Assign) else None
+            if isinstance(val, ast.Name):
+                # the object is built into a local first and published on the client afterwards (F36): judge the local's only definition
+                ds = _defs(ge, val.id)
+                val = ds[0] if len(ds) == 1 else None
             r = repo.resolve_expr(ge.module, val.func) if isinstance(val, ast.Call) else None
             if r and r[0] == "class":
                 built.add(r[1].name)
